@@ -16,6 +16,10 @@ Oracles    : implementation only, judged by an independent reader (json / fastav
                         library calls of the correspondence run under SIGALRM deadlines: a looping library is a VIOLATION
                spelling type SPELLINGS ({"type": t}, +doc, nested, upper case, [t], {}) in the table schema or in the
                         argument x the values plain pyarrow silently alters, fresh and reused handles
+               faults   storage faults DURING the append calls of explicit transactions (a window of failing operations that
+                        lasts as long as the call: metadata reads from the start / after the call's first write / the first n;
+                        marker writes; data-plane reads; manifests), x divergent schema arguments and pre-built footers x
+                        fresh / reused handles; the same windows are mixed into the random transaction histories
                objects  schema argument OBJECTS whose derived attributes (schema_string) disagree with their fields --
                         dataclasses.replace, in-place edit / re-assignment of .fields, explicit schema_string=, an edited
                         copy of the handle's own schema object -- x the divergent variants x fresh / reused handles; the
@@ -65,7 +69,7 @@ from harness.lib.values import val_to_coq
 LEVEL = "proof"
 THEOREMS = ["C11_accept_scans", "C11_history_scans", "C11_accept_bounds", "C11_history_filter", "C11_history_bounds_exact",
             "C11_history_bounds_true", "C11_reject_no_trace", "C11_exact_partial", "C11_fits_representable",
-            "C11_arg_object_irrelevant", "C11_tx_rejected_call_no_trace", "C11_tx_publishes_accepted_only", "C11_tx_unpublished_no_trace", "C11_tx_history_scans"]
+            "C11_arg_object_irrelevant", "C11_tx_rejected_call_no_trace", "C11_tx_fault_fails_closed", "C11_tx_publishes_accepted_only", "C11_tx_unpublished_no_trace", "C11_tx_history_scans"]
 REQ = ["DS.Model.Value", "DS.Gen.GenPrune", "DS.Model.Prune", "DS.Gen.GenSchema", "DS.Model.Schema", "DS.Model.SchemaTx", "DS.Model.SchemaEval"]
 
 MANIFEST_ENTRY = {
@@ -78,7 +82,8 @@ MANIFEST_ENTRY = {
                   "minimum / maximum of its column, under the table's field id, and encloses every ordinary value "
                   "(C11_history_bounds_exact, C11_history_bounds_true); in explicit transactions a call that raises adds "
                   "nothing to the queue, a successful commit publishes exactly the files of the accepted calls, any "
-                  "other end publishes nothing, and scans keep working (C11_tx_*); an append depends on the schema argument "
+                  "other end publishes nothing, scans keep working, and calls made while storage operations fail (metadata "
+                  "unreadable, marker writes failing) fail closed -- never 'no schema to enforce' (C11_tx_*); an append depends on the schema argument "
                   "object only through its schema_id and fields, never through derived attributes such as a stale "
                   "schema_string (C11_arg_object_irrelevant); a rejected append leaves "
                   "schema, snapshot list, reachable files and stored data files unchanged (C11_reject_no_trace); accepted "
@@ -896,6 +901,66 @@ def oracle_objects(ctx) -> None:
     ctx.stats["objects"] = {"cases": len(jobs), "by_build_mode": outcomes}
 
 
+def oracle_faults(ctx) -> List[Tuple[Dict[str, Any], Dict[str, Any]]]:
+    """Storage faults DURING the append calls of explicit transactions: while the call runs, a window of failing
+    storage operations (metadata reads for the whole call / only after the call's first write / the first n reads;
+    marker writes; data-plane reads), cleared before the transaction ends.  Crossed with the divergent schema
+    arguments and divergent pre-built footers, on fresh and reused handles, after one ordinary append.  A call
+    that raises must leave no trace; whatever is accepted must scan back exactly."""
+    from harness.lib.c11_tx import FAULT_SPECS, gen_file, shrink_tx, tx_case_json
+    rng = ctx.rng
+    pairs = [("long", [100, 101], [1, 2]), ("string", ["x1", "x2"], ["a1", "a2"]), ("double", [10.5, 11.5], [0.5, 1.5])]
+    variants = ["identical", "renumbered", "ids_shifted", "reordered", "reordered_new_sid", "retyped", "nullability"]
+    specs = [FAULT_SPECS[0], FAULT_SPECS[2], FAULT_SPECS[4]] + (FAULT_SPECS[5:] if ctx.tier == "thorough" else [])
+    cases: List[Dict[str, Any]] = []
+    for spec in specs:
+        for hname in ("fresh", "B", "A"):
+            for vname in variants:
+                ty, va, vb = rng.choice(pairs)
+                fields = [{"id": 1, "name": "a", "type": ty, "required": False}, {"id": 2, "name": "b", "type": ty, "required": False}]
+                v = make_variant(rng, fields, vname)
+                if v is None:
+                    continue
+                arg, sid = v
+                recs = [{"a": va[1], "b": vb[1]}] if vname != "retyped" else (gen_records(rng, arg, 0.0) or [{f["name"]: good_values(declared_type(f["type"]))[0] for f in arg}])
+                cases.append({"kind": "tx", "fields": fields, "seed": rng.getrandbits(30), "txs": [
+                    {"handle": "A", "end": "commit", "calls": [{"op": "records", "variant": "omitted", "arg": None, "sid": 1, "build": "fresh", "records": [{"a": va[0], "b": vb[0]}]}]},
+                    {"handle": hname, "end": "commit", "calls": [{"op": "records", "variant": vname, "arg": arg, "sid": sid, "build": "fresh", "records": recs,
+                                                                   "fault": copy.deepcopy(spec)}]}]})
+            for kind in ("good", "reordered", "retyped", "nullability", "extra_col"):
+                ty, va, vb = rng.choice(pairs)
+                fields = [{"id": 1, "name": "a", "type": ty, "required": False}, {"id": 2, "name": "b", "type": ty, "required": False}]
+                f1 = gen_file(rng, fields, "good")
+                f2 = gen_file(rng, fields, kind)
+                cases.append({"kind": "tx", "fields": fields, "seed": rng.getrandbits(30), "txs": [
+                    {"handle": "A", "end": "commit", "calls": [{"op": "records", "variant": "omitted", "arg": None, "sid": 1, "build": "fresh", "records": [{"a": va[0], "b": vb[0]}]}]},
+                    {"handle": hname, "end": "commit", "calls": [{"op": "files", "files": [f1, f2], "fault": copy.deepcopy(spec)}]}]})
+    results = bounded_many(ctx.scratch, [(c, 1) for c in cases])
+    stats = {"cases": len(cases), "faulted_calls_accepted": 0, "faulted_calls_rejected": 0, "fault_hits": 0}
+    reported = set()
+    runs = []
+    for case, res in zip(cases, results):
+        runs.append((case, res))
+        for tev in res["trace"]:
+            ctx.count(1 + len(tev["calls"]), ("fault", id(case), tev["tx"]))
+            for c in tev["calls"]:
+                if c.get("fault"):
+                    stats["faulted_calls_" + c["outcome"]] += 1
+                    stats["fault_hits"] += c.get("fault_hits", 0)
+        for key, what in res["violations"]:
+            k2 = "fault:" + key
+            if k2 in reported:
+                continue
+            reported.add(k2)
+            slow = key.split(":")[0] in ("hang", "crash", "error")
+            small = case if slow else shrink_tx(case, lambda c: any(k == key for k, _ in bounded_case(c, os.path.join(ctx.scratch, "shrinktx"), 1)["violations"]))
+            again = bounded_case(small, os.path.join(ctx.scratch, "shrinktx"), 1)
+            what2 = next((w for k, w in again["violations"] if k == key), what)
+            ctx.violation(k2, what2, {"kind": "tx-history", "case": tx_case_json(small)})
+    ctx.stats["faults"] = stats
+    return runs
+
+
 def oracle_cells(ctx) -> None:
     """Every column type x every value class, one cell per table (the conversion boundary of the property)."""
     n = 0
@@ -1377,6 +1442,8 @@ def classify(ev: Dict[str, Any]) -> int:
         return 3
     if msg.startswith("injected commit failure"):
         return 5
+    if "injected storage fault" in msg:
+        return 7
     return 4
 
 
@@ -1445,6 +1512,20 @@ def corr_machine(ctx, runs: List[Tuple[Dict[str, Any], Dict[str, Any]]]) -> None
     ctx.stats["machine_cases_not_modelled"] = skipped
 
 
+def fault_coq(spec: Optional[Dict[str, Any]]) -> Optional[str]:
+    """The model's name for a fault window; "" when there is none; None when the window is not modelled
+    (a bounded number of failing operations, other planes)."""
+    if not spec:
+        return ""
+    if spec.get("count") is not None:
+        return None
+    if spec["plane"] == "metadata" and spec["ops"] in ("read", "all"):
+        return {"call": "FBefore", "first-write": "FAfterWrite"}.get(spec.get("start", "call"))
+    if spec["plane"] == "inflight" and spec["ops"] in ("write", "all") and spec.get("start", "call") == "call":
+        return "FMarker"
+    return None
+
+
 def corr_tx(ctx, runs: List[Tuple[Dict[str, Any], Dict[str, Any]]]) -> None:
     """The transaction histories through Model/SchemaTx.v (run_calls / end_tx), pyarrow's observed conversions
     as the oracle: per transaction the tags of its calls, snapshot count, library-written files on storage,
@@ -1454,6 +1535,7 @@ def corr_tx(ctx, runs: List[Tuple[Dict[str, Any], Dict[str, Any]]]) -> None:
     for t in TYPES:
         by_arrow.setdefault(str(real_arrow_type(t)), f"arrow_of_type T_{t}")
     exprs, kept, impl = [], [], []
+    unmodelled = 0
     for case, res in runs:
         if not res["trace"]:
             continue
@@ -1483,10 +1565,15 @@ def corr_tx(ctx, runs: List[Tuple[Dict[str, Any], Dict[str, Any]]]) -> None:
                 h = {"A": 0, "B": 1}[tx["handle"]]
             calls, ctags = [], []
             for c, cev in zip(tx["calls"], tev["calls"]):
+                ft = fault_coq(c.get("fault"))
+                if ft is None:
+                    ok = False
+                    unmodelled += 1
+                    break
                 if c["op"] == "records":
                     stale = c.get("build", "fresh") != "fresh" and c["arg"] != case["fields"]
                     arg = f"(Some {ischema_coq(c['sid'], c['arg'], stale)})" if c["arg"] is not None else "None"
-                    calls.append(f"CRecords {arg} [" + "; ".join(record_coq(r) for r in c["records"]) + "]")
+                    calls.append((f"CRecordsF {ft} " if ft else "CRecords ") + f"{arg} [" + "; ".join(record_coq(r) for r in c["records"]) + "]")
                     ctags.append(classify(cev))
                 else:
                     pfs = []
@@ -1506,8 +1593,8 @@ def corr_tx(ctx, runs: List[Tuple[Dict[str, Any], Dict[str, Any]]]) -> None:
                                    f"pf_parquet := {b2c(k not in ('avro', 'orc_declared'))}; pf_footer := {foot}; pf_rows := {rows} |}}")
                     if len(pfs) != len(c["files"]):
                         ok = False
-                    calls.append("CFiles [" + "; ".join(pfs) + "]")
-                    ctags.append(0 if cev["outcome"] == "accepted" else 6)
+                    calls.append((f"CFilesF {ft} [" if ft else "CFiles [") + "; ".join(pfs) + "]")
+                    ctags.append(0 if cev["outcome"] == "accepted" else (7 if "injected storage fault" in cev.get("message", "") else 6))
             end = {"commit": "EndCommit true", "commit_fails": "EndCommit false", "rollback": "EndRollback", "abandon": "EndAbandon"}[tx["end"]]
             real_files = []
             for f in tev["files"]:
@@ -1541,6 +1628,7 @@ def corr_tx(ctx, runs: List[Tuple[Dict[str, Any], Dict[str, Any]]]) -> None:
                         "model": g2[k] if k is not None else g2})
     ctx.correspondence("transactions", len(kept), bad)
     ctx.stats["tx_corr_transactions"] = ntx
+    ctx.stats["tx_corr_cases_with_unmodelled_fault_window"] = unmodelled
 
 
 # ---------------------------------------------------------------------------------- driver
@@ -1567,6 +1655,7 @@ def run(ctx) -> None:
     oracle_prebuilt(ctx)
     runs = oracle_e2e(ctx)
     tx_runs = oracle_tx(ctx)
+    tx_runs += oracle_faults(ctx)
     guarded(ctx, "legacy-probe", {"kind": "hang", "where": "probe_legacy"}, lambda: probe_legacy(ctx), 60.0)
     # correspondence needs the model to build
     try:
